@@ -280,6 +280,10 @@ func checkC18(p *Prog, l *Ledger) {
 	// (C09's partition rule), so two spellings that differ in the source stay two names (no normalisation, folding or
 	// truncation that would let a consistent renaming merge or split variables)
 	l.AsOnly(map[string]string{"C09/S1-partition": "C18/d-renaming/lexeme-is-source"}, func() { checkC09(p, l) })
+	// (e) parentheses that repeat the documented grouping change nothing only if the parser groups as documented (C01's
+	// ladder and associativity rules): a level that takes an operand from the wrong level accepts `x < (1 << n)` and
+	// rejects or regroups `x < 1 << n`
+	l.AsOnly(map[string]string{"C01/S1-ladder": "C18/e-parentheses/documented-grouping", "C01/S2-associativity": "C18/e-parentheses/documented-grouping/associativity", "C01/S3-postfix-chain": "C18/e-parentheses/documented-grouping/postfix"}, func() { checkC01(p, l) })
 	// (e) parentheses: evaluating a Grouping node does nothing but evaluate its operand
 	checkGroupingTransparent(p, l, "C18/e-parentheses/grouping-transparent")
 	// (d) renaming: the initialisers of an object literal run in the order they are written (the parser's Keys), not in
